@@ -464,7 +464,12 @@ class World:
             return
         for u in tgt:
             self.ev("datagram", u=u.u, lport=u.port, b=list(op["b"]), src=op.get("src", "10.0.0.9"))
-            u.protocol.datagram_received(bytes(op["b"]), (op.get("src", "10.0.0.9"), op.get("sport", u.port)))
+            try:
+                u.protocol.datagram_received(bytes(op["b"]), (op.get("src", "10.0.0.9"), op.get("sport", u.port)))
+            except Exception as ex:
+                # as in _SelectorDatagramTransport._read_ready: an exception raised by the protocol's
+                # datagram_received ends up in the loop's exception handler; the transport stays open
+                self.loop.call_exception_handler({"message": "Exception in callback datagram_received", "exception": ex})
 
     def op_snapshot(self, op):
         from . import snapshot
